@@ -73,6 +73,34 @@ class Ctx:
         self.solver_secs += res.secs
         return res
 
+    def parallel(self, thunks, procs=None):
+        """Run independent groups of obligations in forked worker processes (the z3 terms are inherited by
+        fork; results come back as plain data).  thunk(ctx) appends its results to ctx as usual."""
+        import multiprocessing as mp
+        import os
+        global _PAR
+        procs = procs or int(os.environ.get("VERIF_PROCS", "0") or 0) or min(16, os.cpu_count() or 4)
+        if len(thunks) <= 1 or procs <= 1 or os.environ.get("VERIF_SERIAL"):
+            for t in thunks:
+                t(self)
+            return
+        _PAR = (self, thunks)
+        with mp.get_context("fork").Pool(min(procs, len(thunks))) as pool:
+            deltas = pool.map(_par_run, range(len(thunks)), chunksize=1)
+        for d in deltas:
+            for r in d["results"]:
+                self.results.append(r)
+            self.solver_secs += d["solver_secs"]
+            for f in d["functions"]:
+                if not any(g["qualname"] == f["qualname"] and g["role"] == f["role"] for g in self.functions):
+                    self.functions.append(f)
+            self.trusted |= d["trusted"]
+            self.undecided_clauses += d["undecided_clauses"]
+            self.bounded += d["bounded"]
+            self.notes += d["notes"]
+            self.covers += d["covers"]
+            self.canaries += d["canaries"]
+
     def fuc(self, module, qualname, role="verified"):
         info = loader.func_info(self.mods, module, qualname)
         if info is None:
@@ -199,7 +227,7 @@ class Ctx:
         for lab, obs in groups.items():
             status, secs, backend, detail, model, line, wit, defin = "discharged", 0.0, "z3", "", None, None, None, True
             for ob in obs:
-                discharge.discharge(ob, self.timeout_ms)
+                discharge.discharge(ob, self.timeout_ms, getattr(self, 'split_first', False))
                 secs += ob.time
                 if ob.backend == "cvc5":
                     backend = "cvc5"
@@ -244,3 +272,24 @@ class Ctx:
             return True
         self.add(ObResult(f"{self.prop}/{oid}", "error", detail="canary not satisfiable: " + detail))
         return False
+
+
+_PAR = None
+
+
+def _par_run(i):
+    ctx, thunks = _PAR
+    base = dict(n=len(ctx.results), secs=ctx.solver_secs, nf=len(ctx.functions), tr=set(ctx.trusted),
+                nu=len(ctx.undecided_clauses), nb=len(ctx.bounded), nn=len(ctx.notes), cov=ctx.covers, can=ctx.canaries)
+    try:
+        thunks[i](ctx)
+    except Exception:
+        ctx.add(ObResult(f"{ctx.prop}/driver/worker{i}", "error", detail=traceback.format_exc()[-600:]))
+    out = []
+    for r in ctx.results[base["n"]:]:
+        r.model = r.model if (r.model is None or isinstance(r.model, dict)) else discharge.model_to_dict(r.model)
+        out.append(r)
+    return dict(results=out, solver_secs=ctx.solver_secs - base["secs"], functions=ctx.functions[base["nf"]:] + [
+        f for f in ctx.functions[:base["nf"]]], trusted=ctx.trusted - base["tr"],
+        undecided_clauses=ctx.undecided_clauses[base["nu"]:], bounded=ctx.bounded[base["nb"]:], notes=ctx.notes[base["nn"]:],
+        covers=ctx.covers - base["cov"], canaries=ctx.canaries - base["can"])
